@@ -51,7 +51,7 @@ class PyEndpoint:
         w = self.m.py()
         if not w.hello.get("ready"):
             return Result(3, None, b"", "python import failed: %s\n%s" % (w.hello.get("error"), w.hello.get("tb", "")),
-                          errclass="ImportFailed")
+                          errclass="ImportFailed" + (":ndarray-of-fixed-vector-annotation" if "Too many arguments for numpy.ndarray" in str(w.hello.get("error")) else ""))
         res, out = w.copy(proto, infmt, outfmt, data, mode=kw.get("mode", self.mode), in_how=self.in_how, out_how=self.out_how)
         if res.get("died"):
             return Result(None, 9, out, res.get("error", ""), errclass="worker-died")
